@@ -85,8 +85,10 @@ class C06(CacheProp):
                         ref[h] = (v, exp)
                     elif kind == "del":
                         ref.pop(h, None)
-                        if not any(f[2] == h and f[0] < upto and f[0] > n for f in fifo):
-                            dirty.discard(h)
+                        if not any(f[2] == h and f[0] > n for f in fifo):
+                            dirty.discard(h)     # nothing about the key is pending behind this tombstone
+                    elif kind == "unk":
+                        dirty.add(h); ref.pop(h, None)
                 else:
                     rest.append((n, kind, h, v, exp))
             fifo = rest
@@ -116,11 +118,12 @@ class C06(CacheProp):
                 exp = 0 if ttl == 0 else now + ttl
                 if res[:1] == ["true"]:
                     if h in dirty:
-                        pass
+                        fifo.append((n, "unk", h, v, exp))   # outcome unknown, but it is pending behind what is queued
                     elif h in ref and (ref[h][1] == 0 or now < ref[h][1]) and not any(f[2] == h for f in fifo):
                         ref[h] = (v, exp)                # overwrite of a resident key: visible at once
                     elif h in ref or any(f[2] == h for f in fifo):
                         dirty.add(h); ref.pop(h, None)   # pending or just expired: the property does not apply
+                        fifo.append((n, "unk", h, v, exp))
                     else:
                         fifo.append((n, "new", h, v, exp))
                 elif res[:1] == ["false"] and ttl >= 0:
